@@ -151,7 +151,16 @@ impl SizeManifest {
         }
 
         // Validate total_size matches sum of esizes
-        let computed_total: u64 = self.entries.iter().map(|e| e.esize).sum();
+        // (the esizes are fields of the file, up to 8 bytes wide: their sum can exceed
+        // `u64::MAX`, which no header total can match)
+        let computed_total = self
+            .entries
+            .iter()
+            .try_fold(0u64, |sum, e| sum.checked_add(e.esize))
+            .ok_or(SizeError::TotalSizeMismatch {
+                expected: self.header.total_size(),
+                actual: u64::MAX,
+            })?;
         if computed_total != self.header.total_size() {
             return Err(SizeError::TotalSizeMismatch {
                 expected: self.header.total_size(),
